@@ -39,7 +39,7 @@ type Choices struct {
 	NgKSI       byte
 	DLNasOpt    uint // bit i: optional IE i of DownlinkNASTransport present (OldAMF, RANPagingPriority, MobilityRestrictionList, IndexToRFSP, UE-AMBR, AllowedNSSAI)
 	ICSOpt      uint // optional IEs of InitialContextSetupRequest (OldAMF, UE-AMBR, CoreNetworkAssistanceInformation, MobilityRestrictionList, MaskedIMEISV, EmergencyFallbackIndicator, IndexToRFSP)
-	NGSetupShape int  // 0: one GUAMI/PLMN/slice; 1: two GUAMIs, two PLMN support items, two slices; 2: with backup AMF name
+	NGSetupShape int  // 0: one GUAMI/PLMN/slice; 1: two GUAMIs, two PLMN support items, two slices; 2: with backup AMF name; 3: GUAMI on another (hosting) PLMN, the UE's PLMN second in the PLMN support list
 	SMCOpt      uint // bit0: IMEISV request, bit1: additional 5G security information (RINMR)
 	UEIP        [][]byte // per UE index (cycled)
 	TEID        [][]byte
@@ -381,6 +381,11 @@ func (a *AMF) onNGSetup(l []ieView) [][]byte {
 		slices.Kids = append(slices.Kids, refper.Seq("SNSSAI", snssai(2, nil)))
 		guamis.Kids = append(guamis.Kids, refper.Seq("GUAMI", guami(3)))
 		plmns.Kids = append(plmns.Kids, refper.Seq("PLMNIdentity", val(refper.Octets([]byte{0x99, 0xf9, 0x99})), "SliceSupportList", refper.Seq("List", refper.List(refper.Seq("SNSSAI", snssai(1, nil))))))
+	case 3:
+		// a shared AMF: its GUAMI is on the hosting operator's PLMN, and the UE's PLMN is the second one it supports
+		other := []byte{0x99, 0xf9, 0x99}
+		guamis.Kids[0] = refper.Seq("GUAMI", refper.Seq("PLMNIdentity", val(refper.Octets(other)), "AMFRegionID", val(refper.Bits([]byte{2}, 8)), "AMFSetID", val(refper.Bits([]byte{0x00, 0x40}, 10)), "AMFPointer", val(refper.Bits([]byte{0x00}, 6))))
+		plmns.Kids = []*refper.Node{refper.Seq("PLMNIdentity", val(refper.Octets(other)), "SliceSupportList", refper.Seq("List", refper.List(refper.Seq("SNSSAI", snssai(1, nil))))), plmns.Kids[0]}
 	case 2:
 		guamis.Kids[0] = refper.Seq("GUAMI", guami(2), "BackupAMFName", val(refper.Str("backup-amf.5gc.mnc001.mcc001.3gppnetwork.org")))
 	}
